@@ -60,6 +60,7 @@ fn main() {
         "c08" => mon_alias::run(&job),
         "sweepdump" => mon_single::sweepdump(&job),
         "bisect" => mon_single::bisect(&job),
+        "exact2" => mon_single::exact2(&job),
         "c09" => mon_tree::run_c09(&job),
         "c10" => mon_tree::run_c10(&job),
         "c10-recount" => mon_tree::run_c10_recount(&job),
